@@ -721,6 +721,7 @@ EvalNode(m, n) ==
          \* name op= e : the variable is read before e is evaluated
          LET loc == Lookup(m, m.env, nd.s) IN
            IF loc = 0 THEN Throw(m, "RuntimeError", n)
+           ELSE IF m.store[loc].t = "undef" THEN Throw(m, "RuntimeError", n)   \* declared, definition has not run: the read fails first
            ELSE Ev(PushK(m, Frame(k, n, 1, <<m.store[loc]>>, m.env)), Kid(n, 1))
     [] k \in {"call", "invoke", "list", "tuple", "superinvoke", "map"} ->
          IF NKids(n) = 0 THEN [PushK(m, Frame(k, n, 0, <<>>, m.env)) EXCEPT !.ctl = Ctl("val", 0, Nil)]
